@@ -111,6 +111,16 @@ pub enum Ev {
         bytes: Vec<u8>,
         corrupted: bool,
     },
+    /// a real node's `recv_from` handed this datagram to the node: the instant (and, within one
+    /// virtual millisecond, the ORDER relative to the node's own sends) at which it is processed
+    Recv {
+        t: Ms,
+        seq: u64,
+        src: SocketAddr,
+        dst: SocketAddr,
+        bytes: Vec<u8>,
+        corrupted: bool,
+    },
     Api { t: Ms, step: usize, ev: ApiEv },
     Fault { t: Ms, what: String },
     Invariant { t: Ms, node: SocketAddr, clause: String, detail: String },
@@ -121,6 +131,7 @@ impl Ev {
         match self {
             Ev::Send { t, .. }
             | Ev::Deliver { t, .. }
+            | Ev::Recv { t, .. }
             | Ev::Api { t, .. }
             | Ev::Fault { t, .. }
             | Ev::Invariant { t, .. } => *t,
@@ -176,6 +187,12 @@ impl Ev {
             }
             Ev::Deliver { src, dst, bytes, .. } => {
                 h.str("D");
+                h.str(&src.to_string());
+                h.str(&dst.to_string());
+                h.str(&tag_of(bytes));
+            }
+            Ev::Recv { src, dst, bytes, .. } => {
+                h.str("R");
                 h.str(&src.to_string());
                 h.str(&dst.to_string());
                 h.str(&tag_of(bytes));
@@ -240,6 +257,7 @@ pub fn fmt_ev(e: &Ev) -> String {
             "t={t:>9} DELIV {src} -> {dst} ({dst_kind:?}, copy {copy}) {}",
             show_bytes(bytes)
         ),
+        Ev::Recv { t, src, dst, bytes, .. } => format!("t={t:>9} RECV  {src} -> {dst} {}", show_bytes(bytes)),
         Ev::Api { t, step, ev } => {
             let s = format!("{ev:?}");
             format!("t={t:>9} API   step {step}: {}", if s.len() > 600 { &s[..600] } else { &s })
